@@ -12,4 +12,5 @@ INVARIANT UndoAvailable
 INVARIANT NoUnexpectedDeath
 INVARIANT NotStuck
 INVARIANT KeepsFinishedWork
+INVARIANT ToolPreserves
 CHECK_DEADLOCK FALSE
